@@ -6,6 +6,7 @@ from typing import Any
 
 from tree_sitter import Node
 
+from nix_manipulator.expressions.points import point_row
 from nix_manipulator.expressions.binding import Binding
 from nix_manipulator.expressions.comment import Comment
 from nix_manipulator.expressions.expression import NixExpression
@@ -36,7 +37,7 @@ def parse_binding_sequence(
         return (
             prev is not None
             and prev.type in ("binding", "inherit", "inherit_from")
-            and comment_node.start_point.row == prev.end_point.row
+            and point_row(comment_node.start_point) == point_row(prev.end_point)
             and bool(items)
         )
 
